@@ -881,7 +881,14 @@ impl gen::CELVisitorCompat<'_> for Parser {
 
     fn visit_String(&mut self, ctx: &StringContext<'_>) -> Self::Return {
         let token = ctx.tok.as_deref().expect("Has to have string!");
-        match parse::parse_string(&ctx.get_text()) {
+        let text = ctx.get_text();
+        // Raw literals perform no escape processing: the value is the text between the quotes.
+        if let Some(body) = raw_literal_body(&text) {
+            return self
+                .helper
+                .next_expr(token, Expr::Literal(Val::String(body.to_string())));
+        }
+        match parse::parse_string(&text) {
             Ok(string) => self
                 .helper
                 .next_expr(token, Expr::Literal(Val::String(string))),
@@ -931,6 +938,22 @@ impl gen::CELVisitorCompat<'_> for Parser {
             Expr::Literal(Val::Null),
         )
     }
+}
+
+/// The text between the quotes of a raw (`r` / `R` prefixed) string literal, or `None` if the
+/// literal is not raw.
+fn raw_literal_body(text: &str) -> Option<&str> {
+    text.strip_prefix(['r', 'R']).map(strip_quotes)
+}
+
+/// Strips the surrounding `'''` / `"""` or `'` / `"` from a literal the lexer accepted.
+fn strip_quotes(quoted: &str) -> &str {
+    for q in ["'''", "\"\"\""] {
+        if quoted.len() >= 6 && quoted.starts_with(q) && quoted.ends_with(q) {
+            return &quoted[3..quoted.len() - 3];
+        }
+    }
+    &quoted[1..quoted.len() - 1]
 }
 
 pub struct ParserHelper {
